@@ -1033,6 +1033,14 @@ pub fn c04_gen(rng: &mut Rng, n: usize) -> Vec<Case> {
     quiet_panics();
     let mut out = Vec::new();
     let mut tries = 0;
+    // one DEEP tree per run: an inherited name defined on the module only and read from every identifier of a sum with 260-330
+    // terms (left-nested binary operators: the leftmost identifiers sit more than 255 levels below the module)
+    if n >= 50 {
+        let terms = 260 + rng.below(70);
+        let src = format!("total = {}\n", (0..terms).map(|i| format!("a{}", i % 7)).collect::<Vec<_>>().join(" + "));
+        let dsl = "inherit .deep\n(module) @m {\n  node @m.deep\n  attr (@m.deep) kind = \"root\"\n}\n\n(identifier) @id {\n  node r\n  edge r -> @id.deep\n}\n".to_string();
+        if let Some(c) = c04_case(&ExecInput { dsl, src, supplied: vec![] }) { out.push(c); }
+    }
     while out.len() < n && tries < n * 20 { tries += 1; let inp = c04_input(rng); if let Some(c) = c04_case(&inp) { out.push(c); } }
     out
 }
